@@ -2,6 +2,7 @@ import JediModel.Model.WalkSrc
 import JediModel.Lemmas.Walk
 import JediModel.Lemmas.WalkPath
 import JediModel.Lemmas.WalkTree
+import JediModel.Lemmas.WalkNodup
 import JediModel.Lemmas.Search
 /-! # C19 — Project search finds every definition and honours ignore rules
 
@@ -327,6 +328,24 @@ example : RootOk "/r".toList ∧ ValidName "ab".toList ∧
     ¬ (["a".toList] <+: ["ab".toList, "foo".toList]) :=
   ⟨by unfold RootOk; decide, by unfold ValidName; decide, .sibling (.down .here), by decide⟩
 
+/-! ## at most once -/
+
+/-- **yielded at most once**: if the names in every listing are distinct (directory names among
+siblings, file names within a directory — as on a file system), no two events of the walk are at
+the same tree position (names of the directories on the way, own name, file / folder).  Together
+with `unnamed_file_is_yielded`: every python file no rule names is yielded exactly once. -/
+theorem each_position_yielded_at_most_once (cfg : Cfg) (root : Str) (st : St) (files : List FileEnt)
+    (children : Forest) (hfiles : (files.map (·.name)).Nodup) (hch : children.Distinct) :
+    ((walkRoot cfg root st files children).1.map Ev.pos).Nodup :=
+  walkRoot_pos_nodup cfg root st files children hfiles hch
+
+/-- `Forest.Distinct` holds of a non-trivial tree, and fails when two siblings share a name -/
+example :
+    (Forest.cons "a".toList [⟨"m.py".toList, []⟩, ⟨"n.py".toList, []⟩] (.cons "a".toList [] .nil .nil)
+      (.cons "ab".toList [] .nil .nil)).Distinct ∧
+    ¬ (Forest.cons "a".toList [] .nil (.cons "a".toList [] .nil .nil)).Distinct := by
+  simp [Forest.Distinct, Forest.dirNames]
+
 /-! ## open / parse limits -/
 
 /-- `search_in_file_ios` yields exactly: of the first `openLimit` files, those that mention the
@@ -419,6 +438,18 @@ theorem search_filter_spec (lower : Str → Str) (names : List Nm) (wantedType l
   simp only [searchFilter, List.mem_filter, nameMatches, typeOk, Bool.and_eq_true, Bool.or_eq_true,
     beq_iff_eq]
   cases complete <;> simp <;> intro _ <;> exact And.comm
+
+/-- **no duplicate survives `_try_to_skip_duplicates`**: among the results it lets through, the
+tree names (`tree_name` identities that are not `None`) are pairwise different, and so are the
+`module_path`s of the results of type `module` -/
+theorem skip_duplicates_nodup (l : List Nm) :
+    ((skipDuplicates l).filterMap (·.treeId)).Nodup ∧ ((skipDuplicates l).filterMap modKey).Nodup :=
+  ⟨(skipLoop_treeIds_nodup [] [] l).1, (skipLoop_modKeys_nodup [] [] l).1⟩
+
+example : skipDuplicates [⟨"a".toList, "statement".toList, some 1, none, 1⟩, ⟨"a".toList, "statement".toList, some 1, none, 1⟩,
+    ⟨"m".toList, "module".toList, none, some "/r/m.py".toList, 1⟩, ⟨"m".toList, "module".toList, none, some "/r/m.py".toList, 1⟩]
+    = [⟨"a".toList, "statement".toList, some 1, none, 1⟩, ⟨"m".toList, "module".toList, none, some "/r/m.py".toList, 1⟩] := by
+  decide
 
 /-- `_try_to_skip_duplicates` only drops results -/
 theorem skip_duplicates_sublist (l : List Nm) : (skipDuplicates l).Sublist l :=
